@@ -24,11 +24,13 @@ from taskiq.cli.worker.args import WorkerArgs
 
 from vt.core.engine import HarnessError
 
-for _n in ("Process", "Queue", "Event", "sleep", "signal", "os", "current_process", "ProcessManager", "schedule_workers_reload"):
+for _n in ("Process", "Queue", "Event", "sleep", "signal", "os", "ProcessManager", "schedule_workers_reload"):
     if not hasattr(pm, _n):
         raise HarnessError(f"taskiq.cli.worker.process_manager no longer exposes `{_n}`")
 
-_ORIG = {n: getattr(pm, n) for n in ("Process", "Queue", "Event", "sleep", "signal", "os", "current_process")}
+# `current_process` is rebound only if the module uses it (the signal handlers consult it to tell the manager from
+# its forked workers); how the code identifies the manager process is its own business.
+_ORIG = {n: getattr(pm, n) for n in ("Process", "Queue", "Event", "sleep", "signal", "os", "current_process") if hasattr(pm, n)}
 SIGNUM = {"HUP": 1, "INT": 2, "TERM": 15}
 
 
@@ -190,7 +192,9 @@ class World:
             pass
 
 
-def run_manager(W: int, max_fails: int, history: List[Dict[str, Any]], startup_deaths=(), slow=()) -> Dict[str, Any]:
+def run_manager(W: int, max_fails: int, history: List[Dict[str, Any]], startup_deaths=(), slow=(), hosted: bool = False) -> Dict[str, Any]:
+    """hosted=True: nothing about the identity of the current process is faked (used when the manager is run inside
+    a real multiprocessing child, see run_manager_hosted)."""
     w = World(history, list(startup_deaths))
     w.slow = {int(k): float(v) for k, v in slow}
 
@@ -210,7 +214,8 @@ def run_manager(W: int, max_fails: int, history: List[Dict[str, Any]], startup_d
     pm.Queue = mk_queue  # type: ignore
     pm.Event = FE  # type: ignore
     pm.os = types.SimpleNamespace(kill=w.kill, getpid=lambda: 1)  # type: ignore
-    pm.current_process = lambda: types.SimpleNamespace(name="MainProcess")  # type: ignore
+    if "current_process" in _ORIG and not hosted:
+        pm.current_process = lambda: types.SimpleNamespace(name="MainProcess")  # type: ignore
     try:
         m = pm.ProcessManager(WorkerArgs(broker="x:y", modules=[], workers=W, max_fails=max_fails), worker_function=lambda args: None)
         w.queue = m.action_queue
@@ -232,3 +237,37 @@ def run_manager(W: int, max_fails: int, history: List[Dict[str, Any]], startup_d
     finally:
         for n, v in _ORIG.items():
             setattr(pm, n, v)
+
+
+def _hosted_child(conn: Any, a: Any) -> None:
+    try:
+        res = run_manager(*a, hosted=True)
+        res.pop("procs", None)
+        conn.send(res)
+    except BaseException as e:  # noqa: BLE001
+        conn.send({"status": "raised", "ret": None, "exc": f"{type(e).__name__}: {e}", "trace": [["raise", type(e).__name__]],
+                   "nworkers": a[0], "ticks_used": 0})
+    finally:
+        conn.close()
+
+
+def run_manager_hosted(W: int, max_fails: int, history: List[Dict[str, Any]], startup_deaths=(), slow=()) -> Dict[str, Any]:
+    """The same run, but with the manager living in a multiprocessing child named like an application supervisor
+    (not 'worker-*'): a legal way to host `ProcessManager` / `run_worker` inside a bigger program."""
+    import multiprocessing as mp
+
+    ctx = mp.get_context("fork")
+    parent, child = ctx.Pipe(duplex=False)
+    p = ctx.Process(target=_hosted_child, args=(child, (W, max_fails, history, list(startup_deaths), list(slow))), name="supervisor-1")
+    p.start()
+    child.close()
+    try:
+        if parent.poll(60):
+            res = parent.recv()
+        else:
+            res = {"status": "raised", "ret": None, "exc": "Hang: hosted manager did not answer within 60 s", "trace": [], "nworkers": W, "ticks_used": 0}
+    finally:
+        p.join(5)
+        if p.is_alive():
+            p.kill()
+    return res
